@@ -84,20 +84,35 @@ def canVisit (i : Inst) (s : State) (j : Nat) : Bool :=
   && !(cmpInf Params.mtvrpMaskLimitCmp (lenVia i s j) i.limit)
   && !(s.vis j)
 
-/-- `can_visit[:, 1:].sum(-1) > 0` -/
+/-- "some customer is offered" (used by the theorems; `depotRule_eq` ties it to the code's count) -/
 def anyCust (i : Inst) (s : State) : Bool := (List.range i.n).any (fun k => canVisit i s (k + 1))
+
+/-- `can_visit[:, 1:].sum(-1)`: number of customers offered -/
+def numCust (i : Inst) (s : State) : Nat := ((List.range i.n).filter (fun k => canVisit i s (k + 1))).length
+
+/-- the depot entry `can_visit[:, 0] = ~((curr_node == 0) & (can_visit[:, 1:].sum(-1) > 0))`; negation and
+both comparison operators are extracted from the source -/
+def depotRule (i : Inst) (s : State) : Bool :=
+  let b := Params.mtvrpDepotRuleCurCmp.evalNat s.cur 0 && Params.mtvrpDepotRuleAnyCmp.evalNat (numCust i s) 0
+  if Params.mtvrpDepotRuleNegated then !b else b
 
 /-- `get_action_mask` (True = feasible) -/
 def mask (i : Inst) (s : State) (a : Nat) : Bool :=
-  if a = 0 then !(s.cur == 0 && anyCust i s) else canVisit i s a
+  if a = 0 then depotRule i s else canVisit i s a
+
+/-- the multiplier `(curr_node[:, None] != 0)` that resets the per-route bookkeeping at the depot -/
+def moved (a : Nat) : Bool := Params.mtvrpStepGuardCmp.evalNat a 0
+
+/-- the leg's contribution to the clock in `_step`: `distance / speed` -/
+def legTime (i : Inst) (a b : Nat) : Int := if Params.mtvrpStepClockDivSpeed then i.T a b else i.D a b
 
 /-- `_step` -/
 def step (i : Inst) (s : State) (a : Nat) : State :=
   { cur := a
-    len := if a ≠ 0 then s.len + i.D s.cur a else 0
-    time := if a ≠ 0 then max (s.time + i.T s.cur a) (i.early a) + i.service a else 0
-    usedL := if a ≠ 0 then s.usedL + i.dL a else 0
-    usedB := if a ≠ 0 then s.usedB + i.dB a else 0
+    len := if moved a then s.len + i.D s.cur a else 0
+    time := if moved a then max (s.time + legTime i s.cur a) (i.early a) + i.service a else 0
+    usedL := if moved a then s.usedL + i.dL a else 0
+    usedB := if moved a then s.usedB + i.dB a else 0
     vis := upd s.vis a true }
 
 /-- `done = visited.sum(-1) == visited.size(-1)` -/
@@ -111,11 +126,19 @@ def env : Env Inst State where
   step := step
   done := done
 
-/-- `distances * ~((go_to == 0) & open_route)`: the leg `a → b` as charged by `_get_reward` -/
-def charged (i : Inst) : Nat → Nat → Int := fun a b => if b = 0 ∧ i.openR = true then 0 else i.D a b
+/-- `distances * ~((go_to == 0) & open_route)`: the leg `a → b` as charged by `_get_reward`; which end of the
+leg is compared with the depot is extracted from the source -/
+def charged (i : Inst) : Nat → Nat → Int := fun a b =>
+  if (if Params.mtvrpRewardFreeLegIsTo then b = 0 else a = 0) ∧ i.openR = true then 0 else i.D a b
 
-/-- `_get_reward`: `go_from = [0] ++ actions`, `go_to = roll(go_from, -1)`, masked sum, negated -/
-def reward (i : Inst) (as : List Nat) : Int := - rollLen (charged i) (0 :: as)
+/-- `torch.roll(xs, shift, dims=1)`: negative shifts rotate to the left -/
+def rollBy (shift : Int) (xs : List Nat) : List Nat :=
+  if shift ≤ 0 then xs.rotateLeft (-shift).toNat else xs.rotateRight shift.toNat
+
+/-- `_get_reward`: `go_from = [0] ++ actions`, `go_to = roll(go_from, shift)` (shift extracted), masked sum,
+negated -/
+def reward (i : Inst) (as : List Nat) : Int :=
+  - (List.zipWith (charged i) (0 :: as) (rollBy Params.mtvrpRewardRollShift (0 :: as))).sum
 
 /-! ### `check_solution_validity` -/
 
@@ -138,8 +161,8 @@ def checkReplay (i : Inst) : Nat → Int → Int → List Nat → Bool
   | _, _, _, [] => true
   | cur, t, len, a :: as =>
     let dist := i.D cur a
-    let len1 := len + (if i.openR && a == 0 then 0 else dist)
-    let t1 := max (t + i.T cur a) (i.early a)
+    let len1 := len + (if i.openR && Params.mtvrpCheckFreeLegCmp.evalNat a 0 then 0 else dist)
+    let t1 := max (t + (if Params.mtvrpCheckClockDivSpeed then i.T cur a else dist)) (i.early a)
     cmpInf Params.mtvrpCheckLimitCmp len1 i.limit
     && cmpInf Params.mtvrpCheckTwCmp t1 (i.late a)
     && checkReplay i a (if a = 0 then 0 else t1 + i.service a) (if a = 0 then 0 else len1) as
@@ -149,7 +172,7 @@ def checkReplay (i : Inst) : Nat → Int → Int → List Nat → Bool
 def checkC1 (cap : Int) (dem : Nat → Int) : Int → List Nat → Bool
   | _, [] => true
   | used, a :: as =>
-    let u := (if a ≠ 0 then used else 0) + dem a
+    let u := (if Params.mtvrpCheckC1GuardCmp.evalNat a 0 then used else 0) + dem a
     Params.mtvrpCheckCapCmp.eval u cap && checkC1 cap dem u as
 
 /-- the checker on one row, the running loads being compared with the capacity `cap` -/
@@ -188,5 +211,27 @@ def demandsOk (i : Inst) : Bool :=
 /-- well-formed instance -/
 def wf (i : Inst) : Bool :=
   decide (0 ≤ i.cap) && demandsOk i && (List.range i.n).all (fun k => servable i (k + 1))
+
+end Rl4co.Mtvrp
+
+/-! ### `select_start_nodes` (multi-start decoding) and `load_data` -/
+namespace Rl4co.Mtvrp
+
+/-- `MTVRPEnv.select_start_nodes`: `arange(num_starts).repeat_interleave(B) % num_loc + 1`, entry `idx` of the
+result (the expanded batch is k-major: copy `s` of instance `b` sits at row `s * B + b`).  `n` = number of
+customers, `B` = batch size. -/
+def startNode (n B idx : Nat) : Nat :=
+  (idx / B) % (if Params.mtvrpStartModIsNumLoc then n else n + 1) + Params.mtvrpStartOffset
+
+/-- all `num_starts * B` entries -/
+def startNodes (n B k : Nat) : List Nat := (List.range (k * B)).map (startNode n B)
+
+/-- `load_data(scale)`: a demand as the fraction `numerator / denominator` it is stored as after loading:
+`demand / capacity_original` with `scale=True`, unchanged otherwise -/
+def loadDemand (scale : Bool) (capOrig d : Int) : Int × Int := if scale then (d, capOrig) else (d, 1)
+
+/-- the instance with both demand kinds and the capacity multiplied by `c` (a change of the demand unit) -/
+def scaleDem (c : Int) (i : Inst) : Inst :=
+  { i with dL := fun j => c * i.dL j, dB := fun j => c * i.dB j, cap := c * i.cap }
 
 end Rl4co.Mtvrp
